@@ -186,7 +186,8 @@ def parseable_url_without_redirection(data):
     from ural import infer_redirection, canonicalize_url
     cleaned = _CTRL.sub("", s).strip()
     try:
-        if infer_redirection(cleaned) != cleaned or infer_redirection(s) != s:
+        low = cleaned.lower()      # fingerprint_url lower-cases before inferring
+        if infer_redirection(cleaned) != cleaned or infer_redirection(s) != s or infer_redirection(low) != low:
             return None
         for q in (False, True):
             c = canonicalize_url(s, quoted=q)
